@@ -100,7 +100,7 @@ SPEC = {
         "consteval_no_panic", "tables_panic_free", "consteval_agrees", "div_mod_zero_not_constant",
         "div_mod_zero_not_constant_expr", "literal_exact", "literal_neg_exact", "positions_use_eval",
         "float_round_nearest_even", "int_to_float_nearest_even", "float_to_float_nearest_even", "float_widen_exact",
-        "float_to_int_trunc_saturate", "position_rules_as_reviewed", "position_count_agrees", "position_count_complete",
+        "float_to_int_trunc_saturate", "float_narrowing_is_c10_narrow32", "position_rules_as_reviewed", "position_count_agrees", "position_count_complete",
         "position_count_rejections", "case_label_value", "const_initialiser_value", "template_argument_value",
         "template_argument_not_converted", "lod_property_value_partial", "lod_property_refuses_valid_values",
         "enum_values_c_semantics", "enum_rejected_only_out_of_range", "enum_overflow_only_at_type_max", "enum_no_panic"]],
